@@ -696,8 +696,15 @@ func (q *Q) AddAllIDs(tags []int, prios []int, noID map[int]bool) *BatchRec {
 	for _, tg := range tags {
 		jr := h.jobByTag[tg]
 		jr.AddRet = b.AddRet
-		// AddAll does not report per item: acceptance is inferred (see oracle: batchAccepted)
-		jr.Accepted = !q.Closed
+		// AddAll does not report per item. An item is surely rejected only if the queue's Close had returned
+		// before AddAll was called; otherwise it may have been accepted (batchSure() tells when it surely was).
+		sureRejected := false
+		for _, c := range h.QCloses {
+			if c.W == q.W && c.Arg == q.Idx && c.Done && c.Ret < b.AddCall {
+				sureRejected = true
+			}
+		}
+		jr.Accepted, jr.Rejected = !sureRejected, sureRejected
 	}
 	return b
 }
